@@ -1490,3 +1490,99 @@ func TestVerifReplay(t *testing.T) {
 `
 	return "runtime", "workerpool", src, true
 }
+
+// ---------- C18 (timed task executor) ----------
+func init() { replayGens["c18"] = replayC18 }
+
+func replayC18(o *Obligation) (string, string, string, bool) {
+	if !strings.HasPrefix(o.Name, "timed.") {
+		return "", "", "", false
+	}
+	src := `package timed
+
+import (
+	"sync/atomic"
+	"testing"
+	"time"
+)
+
+// oracle: per identifier at most one task is pending, scheduling an identifier again replaces its pending task,
+// Cancel(id) returns true exactly when it prevented a pending task from running - also when the identifier is
+// re-scheduled from inside its own callback or while its previous callback is still running.
+func TestVerifReplay(t *testing.T) {
+	fail := func(format string, a ...any) { t.Fatalf("REPLAY-VIOLATION "+format, a...) }
+	// replace: only the last scheduling of an identifier runs
+	{
+		te := NewTaskExecutor[string](2)
+		var ran [3]atomic.Int32
+		for i := 0; i < 3; i++ {
+			i := i
+			te.ExecuteAfter("id", func() { ran[i].Add(1) }, 30*time.Millisecond)
+		}
+		time.Sleep(120 * time.Millisecond)
+		if ran[0].Load() != 0 || ran[1].Load() != 0 || ran[2].Load() != 1 {
+			fail("three schedulings of one identifier ran %d/%d/%d times, want 0/0/1", ran[0].Load(), ran[1].Load(), ran[2].Load())
+		}
+		if te.Cancel("id") {
+			fail("Cancel(id) returned true although no task is pending (the only one has run)")
+		}
+		te.Shutdown()
+	}
+	// cancel of a pending task
+	{
+		te := NewTaskExecutor[string](1)
+		var ran atomic.Int32
+		te.ExecuteAfter("id", func() { ran.Add(1) }, 50*time.Millisecond)
+		if !te.Cancel("id") {
+			fail("Cancel(id) returned false for a pending task")
+		}
+		time.Sleep(100 * time.Millisecond)
+		if ran.Load() != 0 {
+			fail("a cancelled task ran")
+		}
+		te.Shutdown()
+	}
+	// re-scheduling from inside the callback
+	{
+		te := NewTaskExecutor[string](1)
+		var ran2 atomic.Int32
+		done1 := make(chan struct{})
+		te.ExecuteAfter("id", func() {
+			te.ExecuteAfter("id", func() { ran2.Add(1) }, 200*time.Millisecond)
+			close(done1)
+		}, time.Millisecond)
+		<-done1
+		time.Sleep(30 * time.Millisecond) // the wrapper of the first task has finished
+		if !te.Cancel("id") {
+			fail("the callback of task 'id' re-scheduled 'id'; after it returned Cancel(id) = false although the re-scheduled task is pending")
+		}
+		time.Sleep(300 * time.Millisecond)
+		if ran2.Load() != 0 {
+			fail("the re-scheduled task ran although Cancel was called")
+		}
+		te.Shutdown()
+	}
+	// re-scheduling while the previous callback is still running: the new task stays tracked
+	{
+		te := NewTaskExecutor[string](2)
+		release := make(chan struct{})
+		started := make(chan struct{})
+		var ran2 atomic.Int32
+		te.ExecuteAfter("id", func() { close(started); <-release }, time.Millisecond)
+		<-started
+		te.ExecuteAfter("id", func() { ran2.Add(1) }, 200*time.Millisecond)
+		close(release)
+		time.Sleep(30 * time.Millisecond)
+		if !te.Cancel("id") {
+			fail("'id' was re-scheduled while its previous callback was running; after that callback returned Cancel(id) = false although the new task is pending")
+		}
+		time.Sleep(300 * time.Millisecond)
+		if ran2.Load() != 0 {
+			fail("the re-scheduled task ran although Cancel was called")
+		}
+		te.Shutdown()
+	}
+}
+`
+	return "runtime", "timed", src, true
+}
